@@ -128,6 +128,12 @@ M = [
     ("C01", "reseed-only-unseeded", "black_it/schedulers/base.py", "        for sampler in self.samplers:\n            sampler.random_state = self._get_random_seed()", "        for sampler in self.samplers:\n            seed = self._get_random_seed()\n            if sampler.random_state is None:\n                sampler.random_state = seed"),
     ("C01", "unseeded-pool", "black_it/samplers/surrogate.py", "            random_state=self._get_random_seed(),\n        ).sample_batch(", "            random_state=None,\n        ).sample_batch("),
     ("C01", "folder-draw", "black_it/calibrator.py", "                if self.saving_folder is not None:\n                    self.create_checkpoint(self.saving_folder)", "                if self.saving_folder is not None:\n                    self.create_checkpoint(self.saving_folder)\n                    self.scheduler.samplers[0].random_generator.random()"),
+    ("C05", "batch-index-not-restored", "black_it/calibrator.py", "        calibrator.current_batch_index = current_batch_index\n", ""),
+    ("C05", "rng-state-not-restored", "black_it/calibrator.py", "        calibrator.random_generator.bit_generator.state = random_generator_state\n", "        pass\n"),
+    ("C05", "reseed-every-call", "black_it/calibrator.py", "        if self.current_batch_index == 0:\n            # we only set the samplers' random state at the start of a calibration\n            self._set_samplers_seeds()", "        if self.current_batch_index == 0 or self.current_batch_index == 2:\n            self._set_samplers_seeds()"),
+    ("C05", "cors-batch-id-not-pickled", "black_it/samplers/cors.py", "    @property\n    def rho0(self) -> float:", "    def __getstate__(self) -> dict:\n        state = self.__dict__.copy()\n        state[\"_batch_id\"] = 0\n        return state\n\n    @property\n    def rho0(self) -> float:"),
+    ("C05", "pso-getstate-drops-velocity", "black_it/samplers/particle_swarm.py", "    @property\n    def is_set_up(self) -> bool:", "    def __getstate__(self) -> dict:\n        state = self.__dict__.copy()\n        state[\"_curr_particle_velocities\"] = None if state[\"_curr_particle_velocities\"] is None else state[\"_curr_particle_velocities\"] * 0\n        return state\n\n    def __deepcopy__(self, memo):  # noqa: ANN001, ANN204\n        import copy\n\n        new = type(self).__new__(type(self))\n        new.__dict__.update({k: copy.deepcopy(v, memo) for k, v in self.__getstate__().items()})\n        return new\n\n    @property\n    def is_set_up(self) -> bool:"),
+    ("C05", "session-reset-halton", "black_it/schedulers/base.py", "    def start_session(self) -> None:\n        \"\"\"Set up the scheduler for a new session.\n\n        The default is a no-op.\n        \"\"\"\n", "    def start_session(self) -> None:\n        \"\"\"Set up the scheduler for a new session.\"\"\"\n        for s in self.samplers:\n            if hasattr(s, \"_reset_sequence_index\") and getattr(self, \"_sessions\", 0):\n                s._reset_sequence_index()\n        self._sessions = getattr(self, \"_sessions\", 0) + 1\n"),
     ("C15", "no-tolerance", "black_it/search_space.py", "parameters_bounds[1][i] + 0.0000001,", "parameters_bounds[1][i],"),
 ]
 
